@@ -27,6 +27,7 @@
 #include "cppArrayType.h"
 #include "cppConstType.h"
 #include "cppFunctionType.h"
+#include "cppTypedefType.h"
 #include "cppParameterList.h"
 #include "cppReferenceType.h"
 #include "interrogateType.h"
@@ -439,6 +440,9 @@ get_call_str(const string &container, const vector_string &pexprs) const {
     // It's not possible to assign arrays in C++, we have to copy them.
     bool paren_close = false;
     CPPType *param_type = _parameters[_first_true_parameter]._remap->get_orig_type();
+    while (param_type->get_subtype() == CPPDeclaration::ST_typedef) {
+      param_type = param_type->as_typedef_type()->_type;
+    }
     CPPArrayType *array_type = param_type->as_array_type();
     if (array_type != nullptr) {
       // Copy the elements of the argument into the member.
